@@ -247,6 +247,15 @@ func init() {
 		in.extra["idealhash"] = 2
 		return nil
 	})
+	reg(vxPkg+"Unhashed", func(in *Interp, c *Frame, fn *ssa.Function, a []Value) Value {
+		v := a[0]
+		if ifc, ok := v.(Iface); ok {
+			v = ifc.v
+		}
+		in.registerUnhashed(in.loadFelt(v))
+		in.extra["unhashed-used"] = true
+		return nil
+	})
 	reg(vxPkg+"RealPools", func(in *Interp, c *Frame, fn *ssa.Function, a []Value) Value {
 		in.realPools = true
 		return nil
